@@ -338,3 +338,61 @@ Definition model_create_expressions (ts : list rtopo) : option (list (list (list
   | Some trees => Some (enc_dict (create_expressions trees))
   | None => None
   end.
+
+(* ------------------------------------------------------------------ adapter histories *)
+(* HelicityAdapter as a state machine over the registered SET of topologies (a duplicate-free list;
+   qrules Topology equality: same node set, same edge dictionary).  The state is nothing but the
+   registered set: create_expressions has no memory. *)
+Definition zset_eqb (a b : list Z) : bool := lZ_eqb (sort a) (sort b).
+Definition incoming_ids (t : rtopo) : list Z :=
+  map re_id (filter (fun e => oZ_eqb (re_orig e) None) (rt_edges t)).
+Definition edge_eqb (e f : redge) : bool :=
+  (re_id e =? re_id f) && oZ_eqb (re_orig e) (re_orig f) && oZ_eqb (re_end e) (re_end f).
+Definition edges_sub (a b : list redge) : bool := forallb (fun e => existsb (edge_eqb e) b) a.
+Definition topo_eqb (a b : rtopo) : bool :=
+  edges_sub (rt_edges a) (rt_edges b) && edges_sub (rt_edges b) (rt_edges a)
+  && zset_eqb (rt_nodes a) (rt_nodes b).
+Definition add_topo (t : rtopo) (s : list rtopo) : list rtopo :=
+  if existsb (topo_eqb t) s then s else s ++ [t].
+
+(* register_topology: assert_isobar_topology, then the two guards against an existing topology *)
+Definition register_ok (s : list rtopo) (t : rtopo) : bool :=
+  match tree_of_topo t with
+  | None => false
+  | Some _ =>
+      match s with
+      | [] => true
+      | e :: _ => zset_eqb (incoming_ids t) (incoming_ids e) && zset_eqb (outgoing_ids t) (outgoing_ids e)
+      end
+  end.
+
+Inductive hop := HRegister (t : rtopo) | HPermutate | HCreate.
+
+Definition model_create_gen (fixed : bool) (ts : list rtopo) : option (list (list (list Z) * list (list Z))) :=
+  match omap tree_of_topo ts with
+  | Some trees => Some (enc_dict (create_expressions_gen fixed trees))
+  | None => None
+  end.
+
+(* one operation: new state and what the caller observes
+   (register: tag 100 accepted?; permutate: tag 101 number registered; create: the dictionary) *)
+Definition hstep (fixed : bool) (s : list rtopo) (o : hop)
+  : list rtopo * option (list (list (list Z) * list (list Z))) :=
+  match o with
+  | HRegister t =>
+      if register_ok s t then (add_topo t s, Some [([[100]], [[1]])]) else (s, Some [([[100]], [[0]])])
+  | HPermutate =>
+      let s' := fold_left (fun acc t => add_topo t acc) (permutate s) [] in
+      (s', Some [([[101]], [[Z.of_nat (length s')]])])
+  | HCreate => (s, model_create_gen fixed s)
+  end.
+
+Fixpoint run_history (fixed : bool) (s : list rtopo) (ops : list hop)
+  : list rtopo * list (option (list (list (list Z) * list (list Z)))) :=
+  match ops with
+  | [] => (s, [])
+  | o :: ops' =>
+      let (s1, r) := hstep fixed s o in
+      let (s2, rs) := run_history fixed s1 ops' in
+      (s2, r :: rs)
+  end.
